@@ -790,7 +790,7 @@ impl Eng {
     pub fn add_huge(&mut self, writable: bool) -> R {
         const LEN: usize = (1usize << 32) + 512;
         with(|w| w.hal.bounce = false);
-        let layout = std::alloc::Layout::from_size_align(LEN, 4096).unwrap();
+        let layout = std::alloc::Layout::from_size_align(LEN, 16).unwrap(); // calloc path: pages are never touched
         // lazily zeroed: never touched
         let p = unsafe { std::alloc::alloc_zeroed(layout) };
         if p.is_null() {
